@@ -8,6 +8,7 @@ import (
 	"math"
 	"sort"
 	"strconv"
+	"strings"
 
 	"github.com/vmihailenco/msgpack/v5"
 )
@@ -397,4 +398,19 @@ func (d *Doc) UnmarshalJSON(b []byte) error {
 	}
 	*d = Doc(m)
 	return nil
+}
+
+// SetPath sets the value at a dotted path, creating the intermediate maps.
+func SetPath(d Doc, path string, val any) {
+	parts := strings.Split(path, ".")
+	cur := map[string]any(d)
+	for _, p := range parts[:len(parts)-1] {
+		next, ok := cur[p].(map[string]any)
+		if !ok {
+			next = map[string]any{}
+			cur[p] = next
+		}
+		cur = next
+	}
+	cur[parts[len(parts)-1]] = val
 }
